@@ -9,6 +9,7 @@ CONSTANTS
   MaxTime = 1
 CONSTRAINT ExportC
 CONSTRAINT FirstIsT1
+CONSTRAINT NotBoth
 INVARIANT WireWellFormed
 INVARIANT RoundTrip
 INVARIANT TableTracksOpenTest
